@@ -320,6 +320,10 @@ func ZZ_C06_ConsistencyFromEmpty() {
 	leaves := zzLeaves(n)
 	tree := zzBuild(leaves, false)
 	cproof := tree.ConsistencyProof(0, uint32(n))
+	if n > 0 {
+		// SHA-256 is uninterpreted: exclude the collision "root of a non-empty tree = hash of the empty string"
+		zzsym.Assume(zzMTH(leaves) != zzMTH(nil))
+	}
 	zzsym.Assert(NewMerkleVerifier().VerifyConsistency(0, uint32(n), zzMTH(nil), zzMTH(leaves), cproof) == nil,
 		"consistency proof from the empty tree to any size is accepted by VerifyConsistency")
 	zzsym.Cover("from-empty-done")
